@@ -258,8 +258,151 @@ def job_command(ctx, jr, cmd, vcap):
     H.finish_job(jr, e, res)
 
 
+CREATORS = {'array': 'collections::array', 'map': 'collections::map', 'set_new': 'collections::set', 'map_keys': 'collections::map_keys', 'set_to_array': 'collections::set_to_array'}
+
+
+def job_creator(ctx, jr, cmd, vcap):
+    """the commands that create a collection (array, map, set_new, map_keys, set_to_array) from a symbolic handle table: the result is a
+    handle that was not live before, every earlier handle is unchanged, and the new collection holds exactly what the model says"""
+    jr.bounds = dict(command=cmd, live_handles='0..3 of symbolic kind', collection_sizes='<= 2', value_chars=vcap, arguments='0..2 values' if cmd in ('array', 'set_new') else 'handle argument live / unknown / not a handle')
+    vs = variants(ctx); STRK, LIST, SETK, SUB = vs.index('String'), vs.index('List'), vs.index('Set'), vs.index('SubState')
+    e = ctx.engine(unwind=10, max_rec=5); e.int_digits = 2
+    e.hooks['utils::state::put_handle'] = hook_put_handle
+    t0 = time.time()
+    present = [e.fresh_bool('h%d.present' % i) for i in range(3)]
+    vals, parts = zip(*[sym_handle_value(ctx, e, 'h%d' % i, vcap) for i in range(3)])
+    table = M([(present[i], mk_str(HANDLES[i]), vals[i]) for i in range(3)])
+    has_sub = e.fresh_bool('handles_substate_exists')
+    state = M([(has_sub, mk_str('handles'), E(SV, SUB, {SUB: [table]}))])
+    e.assume(z3.Implies(z3.Not(has_sub), z3.And(*[z3.Not(p) for p in present])))
+    hi = e.fresh_int('arg.handle', 0, len(ARGH) - 1); harg = choose(hi, ARGH)
+    v1 = H.sym_str(e, 'arg.v1', vcap); v2 = H.sym_str(e, 'arg.v2', vcap); na = e.fresh_int('nargs', 0, 2)
+    args = V(na, [v1, v2]) if cmd in ('array', 'set_new') else V(0, []) if cmd == 'map' else V(1, [harg])
+    ctxv, st = invocation_context(e, args)
+    st.m[(0, 'state')] = state
+    rs, rv = run_command(e, 'sdk::std::%s::CommandImpl' % CREATORS[cmd], ctxv, st)
+    jr.symex_time = time.time() - t0
+    if rs is None: raise Abort('%s never returns' % cmd)
+    post_state = e.read(rs, ('mem', 0, 'state', []))
+    pf, psub, _ = map_lookup(e, rs, post_state, mk_str('handles'))
+    post_table = psub.p[SUB][0] if isinstance(psub, E) and SUB in psub.p else M([])
+    tgt = [zand(present[i], zeq(hi, i)) for i in range(3)]
+    live = zor(*tgt); tkind = 0
+    for i in range(3): tkind = zite(tgt[i], parts[i]['d'], tkind)
+    need = {'map_keys': SUB, 'set_to_array': SETK}.get(cmd)
+    okc = True if need is None else zand(live, zeq(tkind, need))
+    checks = []
+    out = rv.p[CONT][0] if CONT in rv.p else None
+    key = out.p[1][0] if out is not None and 1 in out.p else S(0, [])
+    for i in range(3):
+        f, pv, _ = map_lookup(e, rs, post_table, mk_str(HANDLES[i]))
+        checks.append(('live handle %s is unchanged' % HANDLES[i], zimp(present[i], zand(f, sv_eq(e, rs, pv, vals[i]) if pv is not POISON else False))))
+        checks.append(('a key that was not live stays free unless it is the new handle', zimp(zand(znot(present[i]), f), zand(zeq(rv.d, CONT), str_eq(key, mk_str(HANDLES[i]))))))
+    checks.append(('a released / unknown / wrong-kind handle gives the error result and creates nothing', zimp(znot(okc), zeq(rv.d, ERR))))
+    nf, nv, _ = map_lookup(e, rs, post_table, key)
+    checks.append(('the result is a live handle', zimp(okc, zand(zeq(rv.d, CONT), zeq(out.d, 1) if out is not None else False, nf))))
+    checks.append(('the new handle is distinct from every earlier live handle', zimp(okc, zand(*[zimp(present[i], znot(str_eq(key, mk_str(HANDLES[i])))) for i in range(3)]))))
+    cnt = 0
+    for p_, k_, v_ in post_table.ents: cnt = cnt + zite(p_, 1, 0)
+    exp_cnt = zite(okc if okc is not True else True, 1, 0)
+    for i in range(3): exp_cnt = exp_cnt + zite(present[i], 1, 0)
+    checks.append(('exactly one handle is added (none on error)', zeq(cnt, exp_cnt)))
+    if nv is not POISON and isinstance(nv, (E, U)):
+        def item_str(it): return it.p[STRK][0]
+        def with_new(fn_):
+            return umap(nv, fn_) if not isinstance(nv, U) else zor(*[zand(c_, fn_(x_)) for c_, x_ in nv.alts])
+        if cmd == 'array':
+            checks.append(('array holds its arguments verbatim, in order', zimp(nf, with_new(lambda x: zand(zeq(x.d, LIST), sv_eq(e, rs, x.p[LIST][0], V(na, [sv_string(ctx, v1), sv_string(ctx, v2)])) if LIST in x.p else False)))))
+        elif cmd == 'map':
+            checks.append(('map creates an empty map', zimp(nf, with_new(lambda x: zand(zeq(x.d, SUB), znot(zor(*[p_ for p_, _, _ in x.p[SUB][0].ents])) if SUB in x.p and x.p[SUB][0].ents else zeq(x.d, SUB))))))
+        elif cmd == 'set_new':
+            def chk(x):
+                if SETK not in x.p: return False
+                sm = x.p[SETK][0]
+                f1, _, _ = map_lookup(e, rs, sm, v1); f2, _, _ = map_lookup(e, rs, sm, v2)
+                c_ = 0
+                for p_, _, _ in sm.ents: c_ = c_ + zite(p_, 1, 0)
+                expn = zite(na == 0, 0, zite(na == 1, 1, zite(str_eq(v1, v2), 1, 2)))
+                return zand(zeq(x.d, SETK), zimp(na >= 1, f1), zimp(na >= 2, f2), zeq(c_, expn))
+            checks.append(('set_new holds exactly its distinct arguments', zimp(nf, with_new(chk))))
+        else:
+            src_field = 'map' if cmd == 'map_keys' else 'set'
+            def src():
+                r = parts[2][src_field]
+                for i in (1, 0): r = merge(tgt[i], parts[i][src_field], r)
+                return r
+            C = src()
+            def chk2(x):
+                if LIST not in x.p: return False
+                lst = x.p[LIST][0]
+                n_ = 0
+                for p_, _, _ in C.ents: n_ = n_ + zite(p_, 1, 0)
+                cs = [zeq(x.d, LIST), zeq(lst.len, n_)]
+                for p_, k_, _ in C.ents:
+                    cs.append(zimp(p_, zor(*[zand(j < lst.len, str_eq(item_str(lst.it[j]), k_)) for j in range(len(lst.it))]) if lst.it else False))
+                return zand(*cs)
+            checks.append(('%s lists exactly the %s (any order)' % (cmd, 'keys' if cmd == 'map_keys' else 'members'), zimp(zand(okc, nf), with_new(chk2))))
+    for msg, c in checks: e.obligations.append(Obligation(rs.g, c, 'C12 %s: %s' % (cmd, msg), 'assert', 'oracle'))
+
+    def extract(m, o=None):
+        def conc_sv(v):
+            k = solve.model_int(m, v.d); name = vs[k]
+            def item_str(it): return it.p[STRK][0]
+            if name == 'List':
+                l = v.p[k][0]; return ['array', [solve.model_str(m, item_str(x)) for x in l.it[:solve.model_int(m, l.len)]]]
+            if name == 'Set': return ['set', [solve.model_str(m, kk) for p, kk, _ in v.p[k][0].ents if solve.model_bool(m, p)]]
+            if name == 'SubState': return ['map', {solve.model_str(m, kk): solve.model_str(m, item_str(vv)) for p, kk, vv in v.p[k][0].ents if solve.model_bool(m, p)}]
+            return ['other', name]
+        tab = {HANDLES[i]: conc_sv(vals[i]) for i in range(3) if solve.model_bool(m, present[i])}
+        a_ = [solve.model_str(m, x) for x in (v1, v2)[:solve.model_int(m, na)]] if cmd in ('array', 'set_new') else [] if cmd == 'map' else [solve.model_str(m, harg)]
+        return dict(kind='c12_create', cmd=cmd, table=tab, args=a_)
+    coll = zand(*[zimp(present[i], zor(*[zeq(parts[i]['d'], vs.index(k)) for k in ('List', 'Set', 'SubState')])) for i in range(3)])
+    res = discharge_known(e, jr, PID, {}, extract, prefer=coll)
+    witness(jr, e, '%s creates a collection' % cmd, zand(rs.g, okc if okc is not True else True, zeq(rv.d, CONT)), extract)
+    H.finish_job(jr, e, res)
+
+
 # ---------------------------------------------------------------------- native replay
+def create_replayer(v):
+    """rebuild the table, run the creator, then dump what it created and compare with the python model"""
+    lines = []; names = {}; tab = v['table']
+    for i, (h, (kind, content)) in enumerate(sorted(tab.items())):
+        var = 'h%d' % i; names[h] = var
+        if kind == 'array': lines.append('%s = array %s' % (var, ' '.join('"%s"' % esc(x) for x in content)))
+        elif kind == 'set': lines.append('%s = set_new %s' % (var, ' '.join('"%s"' % esc(x) for x in content)))
+        elif kind == 'map':
+            lines.append('%s = map' % var)
+            for k, x in content.items(): lines.append('map_put ${%s} "%s" "%s"' % (var, esc(k), esc(x)))
+        else: return (None, 'table holds a non-collection handle')
+    cmd = v['cmd']; a = v['args']
+    call = ' '.join(('${%s}' % names[x]) if x in names else '"%s"' % esc(x) for x in a)
+    lines += ['r = %s %s' % (cmd, call), 'e = get_last_error', 'ka = is_array ${r}', 'km = is_map ${r}', 'ks = is_set ${r}', 'n = array_length ${r}', 'n2 = set_size ${r}', 'n3 = map_size ${r}',
+              'i0 = array_get ${r} 0', 'i1 = array_get ${r} 1']
+    for j, x in enumerate(a[:2]): lines.append('c%d = set_contains ${r} "%s"' % (j, esc(x)))
+    out = H.replay(dict(mode='sdk', script='\n'.join(lines))); v['native'] = out; v['script'] = lines
+    if out.get('panic'): return (True, 'native panic')
+    if not out.get('ok'): return (None, 'replay script failed: %r' % (out.get('error'),))
+    vs_ = out['vars']; probs = []
+    src = tab.get(a[0]) if a and cmd in ('map_keys', 'set_to_array') else None
+    need = {'map_keys': 'map', 'set_to_array': 'set'}.get(cmd)
+    if need and (src is None or src[0] != need):
+        if not (vs_.get('r') == 'false' and vs_.get('e')): probs.append('wrong-kind / unknown handle did not give an error: r=%r' % vs_.get('r'))
+    else:
+        if cmd == 'array':
+            if vs_.get('ka') != 'true' or vs_.get('n') != str(len(a)) or [vs_.get('i0'), vs_.get('i1')][:len(a)] != a: probs.append('array content %r' % ([vs_.get('n'), vs_.get('i0'), vs_.get('i1')],))
+        elif cmd == 'map':
+            if vs_.get('km') != 'true' or vs_.get('n3') != '0': probs.append('map not empty / not a map')
+        elif cmd == 'set_new':
+            if vs_.get('ks') != 'true' or vs_.get('n2') != str(len(set(a))) or any(vs_.get('c%d' % j) != 'true' for j in range(len(a))): probs.append('set content: size %r' % vs_.get('n2'))
+        else:
+            want = sorted(src[1].keys() if cmd == 'map_keys' else src[1])
+            got = sorted(x for x in [vs_.get('i0'), vs_.get('i1')][:len(want)] if x is not None)
+            if vs_.get('ka') != 'true' or vs_.get('n') != str(len(want)) or got != want: probs.append('%s gave %r, expected %r' % (cmd, got, want))
+    return (bool(probs), '; '.join(probs) or 'native creates what the model says')
+
+
 def replayer(v):
+    if v.get('kind') == 'c12_create': return create_replayer(v)
     """rebuild the table with real commands, run the command, dump every collection, compare with a python model"""
     lines = []; names = {}
     tab = v['table']
@@ -374,6 +517,7 @@ def main(tier, seed):
     chk.replayer = replayer
     vcap = 2 if tier == 'quick' else 3
     for c in CMD: chk.job(job_command, c, cmd=c, vcap=vcap)
+    for c in CREATORS: chk.job(job_creator, 'create:' + c, cmd=c, vcap=vcap)
     chk.bounds = dict(commands=sorted(CMD), live_handles='<= 3 of symbolic kind', collection_size='<= 2 (+2 pushed)', value_chars=vcap)
     chk.assumptions = ['one step per command from an arbitrary handle table (any history of the script-level commands yields such a table); list items are strings',
                        'put_handle: the random key is an arbitrary non-live key (distinctness of live handles rests on the RNG)',
